@@ -312,14 +312,14 @@ def decl_names(terms):
     return names
 
 
-def solve(eng, ob: Obligation, timeout_ms=30000, extra_axioms=(), seed=0):
+def solve(eng, ob: Obligation, timeout_ms=30000, extra_axioms=(), seed=0, mbqi=False):
     s = z3.Solver()
     s.set("timeout", timeout_ms)
-    s.set("auto_config", False)
-    s.set("smt.mbqi", False)
+    if not mbqi:
+        s.set("auto_config", False)
+        s.set("smt.mbqi", False)
     if seed:
-        s.set("smt.random_seed", seed)
-        s.set("sat.random_seed", seed)
+        s.set("random_seed", seed)
     names = decl_names(list(ob.pc) + [ob.goal] + list(eng.axioms_extra))
     for keys, ax in background(eng):
         if any(k in names for k in keys):
@@ -393,15 +393,21 @@ def verify_one(eng, key, ctx=None, timeout_ms=30000, alias=None):
         res.vacuous = True
     for ob in ex.obligations:
         # short attempts with different seeds first (a query that needs the whole budget is an unstable one)
+        # 1. E-matching only (fails fast);  2. model-based quantifier instantiation;  3. other seeds
         status, dt, reason, model = "unknown", 0.0, "", None
-        for attempt, (tmo, seed) in enumerate(((min(timeout_ms, 5000), 0), (min(timeout_ms, 10000), 7),
-                                               (timeout_ms, 13))):
-            status, d, reason, model, _ = solve(eng, ob, tmo, seed=seed)
+        backend = "z3-" + z3.get_version_string()
+        plan = ((min(timeout_ms, 5000), 0, False), (min(timeout_ms, 10000), 0, True),
+                (min(timeout_ms, 10000), 7, False), (timeout_ms, 13, True))
+        for tmo, seed, mbqi in plan:
+            status, d, reason, model, _ = solve(eng, ob, tmo, seed=seed, mbqi=mbqi)
             dt += d
-            if status != "unknown" or not ("timeout" in reason or "canceled" in reason):
+            if status != "unknown":
+                backend = "z3-" + z3.get_version_string() + (" mbqi" if mbqi else " ematching")
+                break
+            if seed == 0 and mbqi and not ("timeout" in reason or "canceled" in reason):
                 break
         res.obligations.append({"name": ob.name, "status": status, "time": round(dt, 3), "line": ob.line,
-                                "kind": ob.kind, "backend": "z3-" + z3.get_version_string(),
+                                "kind": ob.kind, "backend": backend,
                                 "reason": reason, "size": len(ob.pc)})
     res._ex = ex
     return res
